@@ -539,6 +539,14 @@ fn parent_once<W: World>(tier: Tier, plan: &Plan, extra: &Extra) -> Option<i32> 
     }
     println!("{}: {} runs, {} distinct states, {} new violations, {} known-finding lines, {:.1}s; evidence {}",
         prop, m.done, m.distinct.len(), new_violations, known_lines, wall, evp);
+    // every world runs on fresh threads and nearly every call creates a std hash set: if over a whole batch no key
+    // request reached the simulator, std no longer asks through the symbol the simulator defines
+    if let Some(0) = m.counters.get("fault_hash_keys_handed_to_fresh_threads") {
+        if m.done > 100 {
+            println!("HARNESS-ERROR std hash keys are not owned by the simulator (no getrandom request was answered)");
+            harness_errors += 1;
+        }
+    }
     for (k, n) in &m.counters {
         if k.starts_with("harness_") && *n > 0 {
             println!("HARNESS-ERROR {} = {}", k, n);
